@@ -175,6 +175,14 @@ static std::string run_sequence(const std::string& seq) {
       if (f == -1) macro_gm2calc(h, M);
       else if (f == -2) macro_slha(h, M);
       else if (f == -4) macro_slha_slow(h, M);
+      else if (f == -5 || f == -6) {
+         // a model left behind by a REFUSED calculation: -5 tachyonic stau (problem flag stays set), -6 negative
+         // soft mass without tachyon; error codes / exception classes of whatever follows must still correspond
+         macro_gm2calc(h, M);
+         if (f == -5) both(h, M, "set_ml2", -1e6, 2, 2); else both(h, M, "set_me2", -100, 0, 0);
+         int fc = fid_of("calculate_masses"); Args a0; Obs oc, ox; guarded_c(fc, h, a0, oc); call_cxx(fc, M, a0, ox);
+         if (status == "OK" && oc.code != ox.code && oc.code != -99) { status = "MISMATCH"; char b[160]; std::snprintf(b, sizeof b, "calculate_masses in failed-state macro %d: C error code %d, C++ exception class maps to %d", f, oc.code, ox.code); detail = b; }
+      }
       else if (f == -3) { try { gm2calc_mssmnofv_free(nullptr); gm2calc_thdm_free(nullptr); } catch (...) { escaped = "free(NULL)"; } }
       else if (f >= 0 && f < NFNS) {
          Obs oc, ox; guarded_c(f, h, a, oc); call_cxx(f, M, a, ox);
@@ -232,6 +240,26 @@ static void fill_mass(gm2calc_THDM_mass_basis& b, int p, int ytype) {
    b.zeta_u = 0.3; b.zeta_d = -1.5; b.zeta_l = 25; b.Delta_l[0][1] = 0.01; b.Pi_l[1][1] = p ? 0.02 : 0;
    if (p == 2) { b.mh = 500; }            // mh > mH: invalid input
    if (p == 3) { b.tan_beta = -1; }
+   // boundary values of the validated inputs (the C layer must draw every line exactly where the C++ layer does)
+   const double E = 2.220446049250313e-16;
+   switch (p) {
+      case 10: b.sin_beta_minus_alpha = std::nextafter(1.0, 2.0); break;
+      case 11: b.sin_beta_minus_alpha = 1 + 8 * E; break;
+      case 12: b.sin_beta_minus_alpha = 1 + 16 * E; break;
+      case 13: b.sin_beta_minus_alpha = -std::nextafter(1.0, 2.0); break;
+      case 14: b.sin_beta_minus_alpha = 1.0; break;
+      case 15: b.sin_beta_minus_alpha = std::nextafter(1.0, 0.0); break;
+      case 16: b.tan_beta = 4.9406564584124654e-324; break;
+      case 17: b.tan_beta = -0.0; break;
+      case 18: b.mh = std::nextafter(b.mH, 1e9); break;
+      case 19: b.mh = b.mH; break;
+      case 20: b.mA = -0.0; break;
+      case 21: b.mHp = 4.9406564584124654e-324; break;
+      case 22: b.mh = -0.0; break;
+      case 23: b.mA = -4.9406564584124654e-324; break;
+      case 24: b.sin_beta_minus_alpha = -1.0; break;
+      default: break;
+   }
 }
 static void fill_gauge(gm2calc_THDM_gauge_basis& b, int p, int ytype) {
    std::memset(&b, 0, sizeof b);
@@ -239,6 +267,8 @@ static void fill_gauge(gm2calc_THDM_gauge_basis& b, int p, int ytype) {
    const double l[7] = {0.7, 0.6, 0.5, 0.4, 0.3, 0.2, 0.1};
    for (int i = 0; i < 7; i++) b.lambda[i] = (p == 2 ? -3 * l[i] : l[i]);     // p==2: tachyonic
    b.tan_beta = p == 3 ? 0 : 3; b.m122 = p ? 1000 : 40000; b.zeta_u = 0.1; b.zeta_l = -2; b.Pi_u[2][2] = p ? 0.1 : 0;
+   if (p == 16) b.tan_beta = 4.9406564584124654e-324;
+   if (p == 17) b.tan_beta = -0.0;
 }
 template <class CB, class XB> static void copy_common(const CB& c, XB& x) {
    x.tan_beta = c.tan_beta; x.m122 = c.m122; x.zeta_u = c.zeta_u; x.zeta_d = c.zeta_d; x.zeta_l = c.zeta_l;
